@@ -226,3 +226,32 @@ def triple_case(draw, force_params=None):
         if draw(st.integers(0, 3)) > 0:
             prm.pop(k, None)
     return {"ref": ref, "query": q, "qlen": qlen, "rev": rev, "peaks": peaks, "params": prm}
+
+
+@st.composite
+def swarm_case(draw):
+    """a short molecule seeded by a swarm of 18-40 peaks 25-100 bp apart (a secondary correlation with a broad, flat
+    top): every peak yields a segment over the same few labels, so the chain is long and all but one member must be
+    emptied"""
+    nr = draw(st.integers(5, 9))
+    ref = [draw(st.integers(10000, 30000))]
+    for _ in range(nr - 1):
+        ref.append(ref[-1] + draw(st.integers(3000, 8000)))
+    k = draw(st.integers(1, 3))
+    i = draw(st.integers(0, nr - k))
+    q = [p - ref[i] for p in ref[i:i + k]]
+    rev = draw(st.booleans())
+    qlen = q[-1] + 1
+    if rev:
+        q = [q[-1] - p for p in q[::-1]]
+    true = ref[i]
+    step = draw(st.sampled_from([25, 50, 100]))
+    npk = draw(st.integers(18, 40))
+    first = draw(st.integers(-npk // 2 - 2, 0))
+    peaks = [true + (first + j) * step for j in range(npk)]
+    if draw(st.booleans()):
+        peaks = peaks[::-1]
+    prm = {"ms": draw(st.sampled_from([1, 500])), "d": draw(st.sampled_from([1500, 3000]))}
+    if draw(st.booleans()):
+        prm["ss"] = 1
+    return {"ref": ref, "query": q, "qlen": qlen, "rev": rev, "peaks": peaks, "params": prm}
